@@ -99,10 +99,15 @@ func list2TestKeyArgs(
 }
 
 // firstValue returns the first value when obj is multiple values and obj
-// otherwise. It is for places that take one value from a call.
+// otherwise. It is for places that take one value from a call or a form, a
+// test for example. As with EvalArg a first value that is an empty list is
+// nil.
 func firstValue(obj slip.Object) slip.Object {
 	if vs, ok := obj.(slip.Values); ok {
-		return vs.First()
+		obj = vs.First()
+		if list, ok2 := obj.(slip.List); ok2 && len(list) == 0 {
+			obj = nil
+		}
 	}
 	return obj
 }
